@@ -110,6 +110,8 @@ class World:
         self.tag = None                 # request tag (C12)
         self.hb_ud = None
         self.sim_errors = []
+        self.dead = False               # the manager process has crashed: nothing has effect
+        self.hook = None                # callable(event name) at durable-state step boundaries
         self.newpin_behaviour = "accept"   # accept|refuse|swerr|comm|timeout|ack-lost
         self.last_answer = None         # bytes of the last normal answer, None after a fault
         self.extra_handlers = {}        # cmd -> fn(world, data, apdu) for admin-only commands
@@ -133,6 +135,8 @@ class Dongle:
 
     def exchange(self, apdu, timeout=None):
         w = self.w
+        if w.dead:
+            raise Dead()
         apdu = bytes(apdu)
         k = w.nex
         w.nex += 1
@@ -143,7 +147,8 @@ class Dongle:
         if f == "write":
             w.log.append(("fault", f, apdu))
             raise link_fault(f)
-        w.log.append(("apdu", self.id, apdu, w.tag))
+        tag = w.tag() if callable(w.tag) else w.tag
+        w.log.append(("apdu", self.id, apdu, tag))
         if w.delay is not None:
             w.delay(self, apdu)
         if isinstance(f, int):
@@ -158,6 +163,8 @@ class Dongle:
             # swallow it (it catches BaseException), so it is recorded for the check to see
             import traceback
             w.sim_errors.append(traceback.format_exc()[-1500:])
+            raise
+        except Dead:
             raise
         except SW as e:
             reset_sessions(w)
@@ -188,6 +195,15 @@ class Dongle:
             w.log.append(("fault", "short", apdu))
             return bytearray(r[:3])
         return bytearray(r)
+
+
+class Dead(BaseException):
+    """Raised for every device operation of a manager process that has crashed."""
+
+
+def _hook(w, name):
+    if w.hook is not None:
+        w.hook(name)
 
 
 class LinkDrop(Exception):
@@ -287,6 +303,7 @@ def boot(w, cmd, d, a):
             pin = bytes(w.pinbuf.get(i, 0) for i in range(len(w.pinbuf)))
         w.pinbuf = {}
         w.log.append(("unlock_attempt", pin))
+        _hook(w, "unlock")
         ok = pin == w.pin and w.unlock_ok and bool(w.onboarded is True)
         if ok:
             w.unlocked = True
@@ -304,6 +321,7 @@ def boot(w, cmd, d, a):
         else:
             new = d[1:]
         w.log.append(("newpin_rx", new))
+        _hook(w, "newpin_rx")
         beh = w.newpin_behaviour
         if not w.unlocked:
             raise SW(0x6BF1)
@@ -319,6 +337,7 @@ def boot(w, cmd, d, a):
             raise DeviceTimeout()
         w.pin = new
         w.log.append(("newpin_applied", new))
+        _hook(w, "newpin_applied")
         if beh == "ack-lost":
             raise LinkDrop()            # device adopted the PIN, acknowledgement never arrives
         return bytes([0x80, cmd, 1]) if cmd == 0xA5 else bytes([0x80, cmd])
@@ -386,7 +405,7 @@ def blocks(w, cmd, d):
         n = int.from_bytes(data, "big")
         if n == 0:
             raise SW(0x6B87)
-        w.blk = {"cmd": cmd, "n": n, "cur": 0, "blocks": [], "expect": 0x03, "tag": w.tag}
+        w.blk = {"cmd": cmd, "n": n, "cur": 0, "blocks": [], "expect": 0x03}
         return bytes([0x80, cmd, 0x03])
     b = w.blk
     if b is None or b["cmd"] != cmd or op != b["expect"]:
@@ -506,7 +525,7 @@ def sign(w, d):
     data = d[1:]
     if op == 0x01:
         s = w.sign_st = SignSession(w)
-        s.tag = w.tag
+        s.tag = w.tag() if callable(w.tag) else w.tag
         if len(data) not in (25, 53):
             raise SW(0x6A87)
         path = data[:21]
